@@ -107,7 +107,7 @@ structure Ev where
   valid : Bool := true
   absPos : Nat := 0
   data : Bytes := []
-  deriving Repr, BEq, Inhabited
+  deriving Repr, DecidableEq, Inhabited
 
 structure Row where
   time : Rat := 0
@@ -822,6 +822,19 @@ def stackEndsN : Nat → Seq → Rat → List Out → Seq × List Out
       else stackEndsN n { s with loop := { s.loop with stackLevel := s.loop.stackLevel - 1 } } endsTime outs
     else stackEndsN n { s with loop := { s.loop with stackLevel := s.loop.stackLevel - 1 } } endsTime outs
 
+/-- the decision taken on arrival at the loop end or at the end of the song (tail of processEvents): loop-end hook,
+    All-Notes-Off on the 16 channels, then either the end of the song, or a jump to the begin / to the loop start -/
+def loopTail (s : Seq) (notFound : Bool) : Seq × List Out :=
+  let outs := (if s.hookLoopEnd then [Out.loopEnd] else []) ++ allNotesOff
+  let s := { s with loop := { s.loop with caughtEnd := false } }
+  if !s.loopEnabled || (notFound && s.loop.loopsCount ≥ 0 && s.loop.loopsLeft < 1) || s.loopHooksOnly then
+    ({ s with atEnd := true, cur := { s.cur with wait := fadd s.cur.wait s.postWait } }, outs)
+  else if s.loop.temporaryBroken then
+    ({ s with cur := s.beginPos, loop := { s.loop with temporaryBroken := false } }, outs)
+  else if s.loop.loopsCount < 0 || s.loop.loopsLeft ≥ 1 then
+    ({ s with cur := s.loopBegin, loop := if s.loop.loopsCount ≥ 1 then { s.loop with loopsLeft := s.loop.loopsLeft - 1 } else s.loop }, outs)
+  else (s, outs)
+
 /-- processEvents: (continue?, state, outputs) -/
 def processEvents (s : Seq) (isSeek : Bool) : Bool × Seq × List Out :=
   let s := if s.cur.track.isEmpty then { s with atEnd := true } else s
@@ -845,15 +858,8 @@ def processEvents (s : Seq) (isSeek : Bool) : Bool × Seq × List Out :=
     (true, s, outs)
   else
   if notFound || s.loop.caughtEnd then
-    let outs := r.outs ++ (if s.hookLoopEnd then [Out.loopEnd] else []) ++ allNotesOff
-    let s := { s with loop := { s.loop with caughtEnd := false } }
-    if !s.loopEnabled || (notFound && s.loop.loopsCount ≥ 0 && s.loop.loopsLeft < 1) || s.loopHooksOnly then
-      (true, { s with atEnd := true, cur := { s.cur with wait := fadd s.cur.wait s.postWait } }, outs)
-    else if s.loop.temporaryBroken then
-      (true, { s with cur := s.beginPos, loop := { s.loop with temporaryBroken := false } }, outs)
-    else if s.loop.loopsCount < 0 || s.loop.loopsLeft ≥ 1 then
-      (true, { s with cur := s.loopBegin, loop := if s.loop.loopsCount ≥ 1 then { s.loop with loopsLeft := s.loop.loopsLeft - 1 } else s.loop }, outs)
-    else (true, s, outs)
+    let (s, o) := loopTail s notFound
+    (true, s, r.outs ++ o)
   else (true, s, r.outs)
 
 /-! ## Tick, seek, rewind -/
